@@ -1117,7 +1117,7 @@ func (r *Run) findJob(name string) services.Service {
 func (r *Run) doJob() *Violation {
 	t := r.T
 	j := t.Intn(6) // the six delete-only jobs; expiry sweep is its own op
-	ages := []time.Duration{time.Nanosecond, time.Second, time.Minute, time.Hour, 2 * time.Hour}
+	ages := []time.Duration{0, time.Nanosecond, time.Second, time.Minute, time.Hour, 2 * time.Hour}
 	minAge := ages[t.Intn(len(ages))]
 	maxDel := []int{1, 2, 5, 100}[t.Intn(4)]
 	idx := r.jobIdx
